@@ -19,6 +19,28 @@ sys.path.insert(0, os.path.dirname(os.path.abspath(__file__)))
 from seeded import sh, tests_ok, VERIF  # noqa: E402
 
 
+def auto_checks(patch):
+    """The checks whose subject the patch touches (first pass when many changes are queued; the full set
+    is the default)."""
+    files = set()
+    for ln in open(patch):
+        if ln.startswith("+++ b/"):
+            files.add(ln[6:].strip())
+    sel = set()
+    for f in files:
+        if f.endswith("interactive.py"):
+            sel |= set(["C08", "C16", "C17", "C19", "C20"])
+        elif f.endswith("cvss_calculator.py") or f.endswith("__main__.py"):
+            sel |= set(["C17", "C19", "C20"])
+        elif f.endswith("parser.py"):
+            sel |= set(["C13", "C19", "C20", "C04"])
+        elif f.endswith("exceptions.py") or f.endswith("__init__.py"):
+            sel |= set(["C04", "C12", "C17", "C20"])
+        else:
+            sel |= set("C%02d" % i for i in range(1, 21))
+    return sorted(sel)
+
+
 def main():
     d = os.path.abspath(sys.argv[1])
     args = sys.argv[2:]
@@ -26,6 +48,8 @@ def main():
     checks = ["C%02d" % i for i in range(1, 21)]
     if "--checks" in args:
         checks = args[args.index("--checks") + 1].split(",")
+    if "--auto" in args:
+        checks = auto_checks(os.path.join(d, "patch.diff"))
     name = os.path.basename(d)
     wt = "/tmp/ev/" + name
     scratch = "/tmp/ev/" + name + ".out"
